@@ -13,7 +13,14 @@ twice (original VCF; VCF with two haplotypes of one phase set exchanged).  Check
   detected alleles and (a) the ground-truth alleles assembled by the Lean model of create_read_from_group;
 * symmetry: second run on the exchanged VCF: HP mapped by the transposition for alignments reported in that phase
   set (and belonging to that sample), everything else byte-identical;
-* --output-haplotag-list agrees with the tags written.
+* --output-haplotag-list agrees with the tags written;
+* the whole run against the Lean model of `run_haplotag` (`c10.run`, Model/C10Run.lean: sample loop, contig loop with
+  has_alignments / contig unknown to the VCF / --skip-missing-contigs, regions, write loop, list lines), fed with the phase
+  information of the REAL `VcfReader` + `get_variant_information` (itself compared with `c10.varinfo`) and the read sets of the
+  REAL `PhasedInputReader`: every written record (which input record, HP, PC, PS) and every list line must agree;
+  `compute_variant_file_samples_to_use` / `compute_shared_samples` are called in-process and compared with `c10.samples`,
+  and the error exits (unknown --sample, no shared sample, --ignore-read-groups without --sample, unknown region contig,
+  contig missing from the VCF) must occur exactly when the model says so.
 """
 import json, os, shutil
 
@@ -23,18 +30,19 @@ RULE = ("one case = one generated (phased VCF, BAM, option set) run through the 
 MANIFEST = dict(
     text="Lean 4 theorems about a model of haplotag's decision rule (per-phase-set score accumulation = sum of agreeing "
          "allele qualities, strict maximum within the reported set, ties/no variants untagged, exchange symmetry for any "
-         "ploidy) and of the alignment stream (conservation); tied to the working tree by running the real CLI on generated "
-         "VCF/BAM pairs and comparing every output record with the input and with the model's tags",
+         "ploidy) and of the whole run (sample selection, variant information, sample loop, contig loop with regions / contigs "
+         "unknown to the VCF, write loop, haplotag list: conservation, list = tags, every written tag backed by a read cloud's "
+         "decision); tied to the working tree by running the real CLI on generated VCF/BAM pairs and comparing every output "
+         "record and list line with the input and with the model, and haplotag's helper functions in-process",
     design_ref="DESIGN.md §5 C10",
     note="proof of the decision rule and of conservation on the stream model; htslib/pysam record I/O and allele detection "
-         "(C06) are trusted/differential; F17 (--regions writes alignments once per overlapping region, in region order, or "
-         "fails on unsorted/overlapping regions) is reported until fixes/F17.patch is applied",
+         "(C06) are trusted/differential; reported until repaired: F70 (--skip-missing-contigs leaves alignments out of the output, "
+         "key skip-missing-contigs-drops), F71 (tags cross samples through equal read names / barcodes, key tags-cross-samples)",
     technique="Lean 4 proof (invariant of the accumulation loop = spec sums; permutation lemmas) + differential CLI runs",
 )
 ASSUMPTIONS = [
-    "--skip-missing-contigs drops contigs by design and is outside the quantifier",
-    "read names are unique across samples and barcodes are per sample (otherwise the result depends on the iteration order of "
-    "a Python set of sample names)",
+    "with --ignore-read-groups and several --sample every selected sample works on all reads and the later sample overwrites the "
+    "earlier one; the order is the iteration order of a Python set of sample names: any order is accepted",
     "'its read' = the Read whatshap assembles (create_read_from_group): of two mates on opposite strands only the alleles of "
     "the last one with variants are used — recorded as an observation, see notes/C10.md",
     "with --regions 'every input alignment' means every input alignment overlapping a requested region",
@@ -175,15 +183,21 @@ def usable(rec):
     return not (f & 2048) and rec["mapq"] >= 20 and not (f & 256) and not (f & 4)
 
 
-def detected_reads(case, files, sample, chrom, idxs, regions):
-    """(b) what whatshap itself detects: the ReadSet of PhasedInputReader, in read-set order"""
+def detected_reads(case, files, sample, chrom, idxs, regions, vs=None, cache=None):
+    """(b) what whatshap itself detects: the ReadSet of PhasedInputReader, in read-set order.
+    vs: the variant objects to use (default: built from the case's variant list, indices idxs)"""
     from whatshap.cli import PhasedInputReader
     from whatshap.core import NumericSampleIds
     from whatshap.vcf import BiallelicVcfVariant
     fa, _, bam = files
     o = case["opts"]
-    vs = [BiallelicVcfVariant(case["variants"][chrom][i]["pos"], case["variants"][chrom][i]["ref"], case["variants"][chrom][i]["alt"])
-          for i in idxs]
+    if vs is None:
+        vs = [BiallelicVcfVariant(case["variants"][chrom][i]["pos"], case["variants"][chrom][i]["ref"], case["variants"][chrom][i]["alt"])
+              for i in idxs]
+    key = (sample, chrom, tuple((v.position, v.reference_allele, v.alternative_allele) for v in vs),
+           tuple(tuple(r) for r in (regions if regions is not None else [(0, None)])))
+    if cache is not None and key in cache:
+        return cache[key]
     with PhasedInputReader([bam], None if o.get("no_reference") else fa, NumericSampleIds(), bool(o.get("ignore_read_groups")),
                            only_snvs=False, duplicates=True) as pir:
         rs, _ = pir.read(chrom, vs, sample, regions=regions if regions is not None else [(0, None)])
@@ -191,6 +205,8 @@ def detected_reads(case, files, sample, chrom, idxs, regions):
         for r in rs:
             out.append([r.name, r.reference_start, (r.BX_tag if r.has_BX_tag() else None),
                         [[v.position, v.allele, v.quality] for v in r]])
+    if cache is not None:
+        cache[key] = out
     return out
 
 
@@ -270,6 +286,249 @@ def check_rule(ploidy, info, rvs, hp, pc, ps):
     return None
 
 
+
+# ------------------------------------------------------------------------------------------------
+# the whole run against the Lean model of run_haplotag (Model/C10Run.lean)
+# ------------------------------------------------------------------------------------------------
+
+SEP = "\x1f"
+ERROR_TEXT = {
+    "sampleNotInVcf": "but are not part of the input VCF",
+    "needSampleOption": "samples to be used must be specified",
+    "noSharedSamples": "No common samples between VCF and BAM",
+    "regionContig": "not found in input BAM/CRAM",
+    "contigNotInVcf": "does not exist in the VCF",
+    "noVcfSamples": "No samples detected in VCF",
+}
+
+
+def aln_sample(case, rec):
+    """sample of an alignment through its read group ('' = read group without SM); None: no RG tag, unknown RG, no @RG lines"""
+    if not case["read_groups"] or rec["rg"] is None:
+        return None
+    for rid, sm in case["read_groups"]:
+        if rid == rec["rg"]:
+            return sm if sm is not None else ""
+    return None
+
+
+def find_collisions(case, inrecs):
+    """read names and barcodes that occur on alignments of more than one sample (read groups not ignored)"""
+    if case["opts"].get("ignore_read_groups"):
+        return set(), set()
+    by_name, by_bx = {}, {}
+    for r in inrecs:
+        if r["chrom"] is None:
+            continue
+        sa = aln_sample(case, r)
+        by_name.setdefault((r["chrom"], r["name"]), set()).add(sa)
+        if r["bx"] is not None:
+            by_bx.setdefault((r["chrom"], r["bx"]), set()).add(sa)
+    return {n for (_, n), ss in by_name.items() if len(ss) > 1}, {b for (_, b), ss in by_bx.items() if len(ss) > 1}
+
+
+def sample_selection(ctx, case, files):
+    """the two sample functions of haplotag called in-process, compared with Lean `c10.samples`;
+    returns the model's error class or None"""
+    import pysam
+    from whatshap.vcf import VcfReader
+    from whatshap.cli.haplotag import compute_variant_file_samples_to_use, compute_shared_samples
+    fa, vcf, bam = files
+    o = case["opts"]
+    irg = bool(o.get("ignore_read_groups"))
+    given = list(o["sample"]) if o.get("sample") else None
+    with VcfReader(vcf, only_snvs=False, phases=True, ploidy=case["ploidy"]) as vr:
+        vcf_samples = list(vr.samples)
+    with pysam.AlignmentFile(bam) as br:
+        bam_samples = sorted({(rg["SM"] if "SM" in rg else "") for rg in br.header.to_dict().get("RG", [])})
+
+        def classify(e):
+            t = str(e)
+            return next((k for k, txt in ERROR_TEXT.items() if txt in t), "other:" + t[:80])
+        try:
+            use = compute_variant_file_samples_to_use(vcf_samples, given, irg)
+            impl_use = sorted(use)
+        except Exception as e:          # noqa: the error class is the observable
+            use, impl_use = None, {"error": classify(e)}
+        if use is None:
+            impl_shared = impl_use
+        else:
+            try:
+                impl_shared = sorted(compute_shared_samples(br, irg, use))
+            except Exception as e:      # noqa
+                impl_shared = {"error": classify(e)}
+    ans = ctx.model.ask("c10.samples", vcf=vcf_samples, given=given, ignoreRG=irg, bam=bam_samples)
+    norm = lambda x: sorted(x) if isinstance(x, list) else x
+    if norm(ans["use"]) != impl_use or norm(ans["shared"]) != impl_shared:
+        ctx.disagree("c10.samples", {"case": case, "vcf": vcf_samples, "bam": bam_samples, "given": given, "ignoreRG": irg},
+                     {"use": impl_use, "shared": impl_shared}, ans)
+    ctx.dist("sample_selection", "ok" if isinstance(ans["shared"], list) else ans["shared"]["error"])
+    if isinstance(ans["shared"], dict):
+        return ans["shared"]["error"]
+    if impl_shared != samples_in_use(case):
+        ctx.disagree("c10.samples/harness-oracle", {"case": case}, impl_shared, samples_in_use(case))
+    return None
+
+
+def real_tables(ctx, case, files, sel, samples):
+    """{chrom: None (contig unknown to the VCF) | {sample: (info rows, variant objects)}} through the REAL VcfReader and
+    get_variant_information; the latter is compared with Lean `c10.varinfo` (fed with the table's genotypes and phases)"""
+    from whatshap.vcf import VcfReader, VcfInvalidChromosome
+    from whatshap.cli.haplotag import get_variant_information
+    fa, vcf, bam = files
+    out, reqs, impls = {}, [], []
+    enc = lambda a: a if isinstance(a, int) and 0 <= a < 9 else 9
+    with VcfReader(vcf, only_snvs=False, phases=True, ploidy=case["ploidy"]) as vr:
+        for chrom, regs in sel.items():
+            try:
+                table = vr.fetch_regions(chrom, regs)
+            except VcfInvalidChromosome:
+                out[chrom] = None
+                continue
+            per = {}
+            for s in samples:
+                info, variants = get_variant_information(table, s)
+                rows = sorted([pos, int(ps), [enc(a) for a in ph]] for pos, (ps, ph) in info.items())
+                per[s] = (rows, variants)
+                calls = []
+                for v, gt, ph in zip(table.variants, table.genotypes_of(s), table.phases_of(s)):
+                    calls.append([v.position, bool(gt.is_homozygous()),
+                                  None if ph is None else [None if ph.block_id is None else int(ph.block_id), [enc(a) for a in ph.phase]]])
+                reqs.append(dict(op="c10.varinfo", calls=calls))
+                impls.append((chrom, s, {"info": rows, "variants": [v.position for v in variants]}))
+                ctx.dist("table_records_without_phase", min(sum(1 for c in calls if c[2] is None or c[2][0] is None), 5))
+            out[chrom] = per
+    for (chrom, s, impl), ans in zip(impls, ctx.model.ask_many(reqs) if reqs else []):
+        if ans != impl:
+            ctx.disagree("c10.varinfo", {"case": case, "chrom": chrom, "sample": s}, impl, ans)
+    return out
+
+
+def run_request(case, inrecs, per, tables, reads_of, order, qualify, write_missing, light=False):
+    """request for Lean `c10.run`.  qualify: read names and barcodes are made unique per sample (the behaviour after
+    fixes/F71.patch: the dictionaries are keyed by sample); an alignment belongs to the sample of its read group"""
+    from harness.gen.c10_gen import parse_region
+    o = case["opts"]
+    contigs = list(case["contigs"])
+    q = (lambda sm, x: x if (x is None or not qualify) else f"{sm}{SEP}{x}")
+    creq = []
+    for ci, chrom in enumerate(contigs):
+        alns = []
+        for k in per[ci]:
+            r = inrecs[k]
+            sa = aln_sample(case, r)
+            sa = "~none~" if sa is None else sa
+            alns.append([q(sa, r["name"]), bool(r["flag"] & 4), bool(r["flag"] & 256), bool(r["flag"] & 2048), r["start"], r["end"], q(sa, r["bx"])])
+        t = tables.get(chrom, "absent")
+        samples = []
+        if not light and t not in (None, "absent"):
+            for s in order:
+                rows, _ = t[s]
+                samples.append({"phase": rows, "reads": [[q(s, n), st, q(s, bx), rvs] for n, st, bx, rvs in reads_of[(chrom, s)]]})
+        creq.append({"alns": alns, "inVcf": (chrom in case["vcf_contigs"]) if t == "absent" else (t is not None), "samples": samples})
+    regions = None
+    if o.get("regions"):
+        regions = [[contigs.index(c), s_, e_] for c, s_, e_ in (parse_region(r) for r in o["regions"])]
+    return dict(op="c10.run", ploidy=case["ploidy"],
+                cutoff=(o.get("linked_read_distance_cutoff") if o.get("linked_read_distance_cutoff") is not None else 50000),
+                ignoreLinked=bool(o.get("ignore_linked_read")), tagSupp=bool(o.get("tag_supplementary")),
+                skipMissing=bool(o.get("skip_missing_contigs")), writeMissing=bool(write_missing), regions=regions, contigs=creq)
+
+
+def model_run_check(ctx, case, files, inrecs, outrecs, exp_idx, lines, regions, used, write_missing, det_cache):
+    """the whole successful run against Lean `c10.run`"""
+    import itertools
+    o = case["opts"]
+    contigs = list(case["contigs"])
+    per = [[] for _ in contigs]
+    pos_of = {}
+    for k, r in enumerate(inrecs):
+        if r["chrom"] in contigs:
+            ci = contigs.index(r["chrom"])
+            pos_of[k] = (ci, len(per[ci]))
+            per[ci].append(k)
+    sel = regions if regions is not None else {c: [(0, None)] for c in contigs}
+    sel = {c: regs for c, regs in sel.items() if per[contigs.index(c)]}            # `chrom not in has_alignments`
+    tables = real_tables(ctx, case, files, sel, used)
+    reads_of = {}
+    for chrom, t in tables.items():
+        if t is None:
+            continue
+        for s in used:
+            rows, variants = t[s]
+            reads_of[(chrom, s)] = detected_reads(case, files, s, chrom, None, sel[chrom], vs=variants, cache=det_cache)
+    impl_written = [[*pos_of[k], *outrecs[j]["tagvals"]] for j, k in enumerate(exp_idx) if inrecs[k]["chrom"] is not None]
+    n_tail_out = sum(1 for k in exp_idx if inrecs[k]["chrom"] is None)
+    n_tail_in = sum(1 for r in inrecs if r["chrom"] is None)
+
+    impl = {"written": impl_written, "list": lines, "tail": n_tail_out}
+
+    def shape(req, ans):
+        if ans.get("error"):
+            return {"error": ans["error"]}
+        # read clouds with tied phase sets: the reported set depends on the iteration order of a Python set of Read objects;
+        # the alignments of such a cloud (and those that may be tagged through its barcode) are compared by position only
+        mask, mnames = set(), set()
+        for ci, names_ in enumerate(ans["ambiguous"]):
+            if not names_:
+                continue
+            al = req["contigs"][ci]["alns"]
+            bxs = {a[6] for a in al if a[0] in names_ and a[6] is not None}
+            for k, a in enumerate(al):
+                if a[0] in names_ or (a[6] is not None and a[6] in bxs):
+                    mask.add((ci, k)); mnames.add((ci, a[0]))
+        if mask:
+            ctx.observe("read cloud with tied phase sets (whole-run model): its alignments are compared by position only")
+        return {"written": ans["written"], "list": ans["list"], "tail": n_tail_in if ans["tail"] else 0, "mask": mask, "mnames": mnames}
+
+    def same(m):
+        if "error" in m or m["tail"] != impl["tail"] or len(m["written"]) != len(impl["written"]) or len(m["list"]) != len(impl["list"]):
+            return False
+        for a, b in zip(impl["written"], m["written"]):
+            if a[:2] != b[:2] or (a[2:] != b[2:] and (b[0], b[1]) not in m["mask"]):
+                return False
+        for a, l in zip(impl["list"], m["list"]):
+            b = [l[0].split(SEP)[-1], "none" if l[1] is None else f"H{l[1]}", "none" if l[2] is None else str(l[2]), contigs[l[3]]]
+            if a != b and not (a[0] == b[0] and a[3] == b[3] and (l[3], l[0]) in m["mnames"]):
+                return False
+        return True
+
+    def show(m):
+        return {k: v for k, v in m.items() if k in ("error", "written", "list", "tail")}
+    irg = bool(o.get("ignore_read_groups"))
+    perms = [list(p) for p in itertools.permutations(used)][:24]
+    first = None
+    if not irg:
+        req = run_request(case, inrecs, per, tables, reads_of, used, True, write_missing)
+        first = shape(req, ctx.model.ask(**req))
+        if same(first):
+            ctx.dist("c10.run", "agrees (dictionaries per sample)")
+            return
+    # the code as it is: one dictionary for all samples, the result may depend on the (set) order of the samples
+    reqs = [run_request(case, inrecs, per, tables, reads_of, p, False, write_missing) for p in perms]
+    cand = [shape(r_, a_) for r_, a_ in zip(reqs, ctx.model.ask_many(reqs))]
+    if first is None:
+        first = cand[0]
+    if any(same(c) for c in cand):
+        if irg:
+            ctx.dist("c10.run", "agrees (read groups ignored%s)" % (", sample order matters" if any(show(c) != show(cand[0]) for c in cand) else ""))
+            return
+        # only explained by tags leaking from one sample to another
+        diff = next(((a, b) for a, b in zip(impl["written"], first.get("written", [])) if a != b and (b[0], b[1]) not in first["mask"]), None)
+        what = ""
+        if diff:
+            k = per[diff[0][0]][diff[0][1]]
+            r = inrecs[k]
+            what = (f": alignment {r['name']} (read group {r['rg']}, sample {aln_sample(case, r)!r}, {r['chrom']}:{r['start']}, BX {r['bx']}) is written with "
+                    f"HP/PC/PS {diff[0][2:]}, its own sample's reads give {diff[1][2:]}")
+        ctx.fail("a read name or barcode shared by two samples: the alignment receives the haplotype decided for the OTHER sample's read "
+                 "(read_to_haplotype / BX_tag_to_haplotype are keyed by name / barcode only; samples in use: %s)%s" % (used, what),
+                 case, key="tags-cross-samples")
+        ctx.dist("c10.run", "F71: explained only by one dictionary for all samples")
+        return
+    ctx.dist("c10.run", "DISAGREES")
+    ctx.disagree("c10.run", {"case": case}, impl, show(first))
+
 # ------------------------------------------------------------------------------------------------
 # one case
 # ------------------------------------------------------------------------------------------------
@@ -303,16 +562,35 @@ def run_case(ctx, case, d):
     ctx.dist("options", ",".join(k for k in ("regions", "tag_supplementary", "ignore_read_groups", "no_reference", "ignore_linked_read", "sample")
                                    if o.get(k)) + (",bx" if o.get("linked_read_distance_cutoff") is not None else "") + f",thr{o.get('output_threads', 1)}")
     ctx.dist("encoding", case["encoding"])
+    ctx.dist("special_input", ",".join(k for k in ("collisions", "shared_barcodes", "extras", "skip_missing") if (case.get(k) or o.get(k + "_contigs"))) or "-")
     multi = multi_region(case)
     rkey = "regions-multi" if multi else "conservation"
-    if rc != 0:
-        msg = (se.strip().splitlines() or ["?"])[-1][:300]
-        if not o.get("skip_missing_contigs") and "does not exist in the VCF" in msg:
-            ctx.observe("reads on a contig missing from the VCF header: haplotag refuses without --skip-missing-contigs (by design)")
-            return
-        ctx.fail(f"haplotag exits with {rc} and writes no complete output: {msg}", slim, key=rkey if multi else "cli-error")
-        return
     _, inrecs = load_bam(bam)
+    # ---- sample selection and the error exits (Model/C10Run.lean: samplesToUse, sharedSamples, planContig)
+    from harness.gen.c10_gen import parse_region
+    predicted = sample_selection(ctx, case, files)
+    if predicted is None and o.get("regions") and any(parse_region(r)[0] not in case["contigs"] for r in o["regions"]):
+        predicted = "regionContig"
+    if predicted is None:
+        contigs_ = list(case["contigs"])
+        per_ = [[k for k, r in enumerate(inrecs) if r["chrom"] == c] for c in contigs_]
+        light = ctx.model.ask(**run_request(case, inrecs, per_, {}, {}, [], False, False, light=True))
+        predicted = light.get("error")
+    ctx.dist("expected_exit", predicted or "ok")
+    if case.get("expect_error") and predicted != case["expect_error"]:
+        ctx.observe(f"generator meant to provoke {case['expect_error']}, model predicts {predicted}")
+    if rc != 0 or predicted:
+        msg = " ".join((se.strip().splitlines() or ["?"])[-3:])[-600:]
+        if rc != 0 and predicted and ERROR_TEXT[predicted] in msg:
+            ctx.observe(f"error exit as modelled: {predicted}")
+            ctx.validated()
+            return
+        if rc == 0:
+            ctx.disagree("c10.run/error-exit", {"case": slim}, "haplotag succeeded", predicted)
+            return
+        ctx.fail(f"haplotag exits with {rc} and writes no complete output (model expects {predicted or 'a normal run'}): {msg[-300:]}", slim,
+                 key=rkey if multi else "cli-error")
+        return
     _, outrecs = load_bam(out)
     # file order of the input = order of case['alns'] after write_bam's stable sort: recover the truth per record
     names = list(case["contigs"])
@@ -321,16 +599,25 @@ def run_case(ctx, case, d):
     assert len(srt) == len(inrecs) and all(a["name"] == b["name"] for a, b in zip(srt, inrecs)), "harness: input order"
 
     regions = norm_regions(case)
-    if regions is None and o.get("skip_missing_contigs"):
-        expected = [r for r in inrecs if r["chrom"] is None or r["chrom"] in case["vcf_contigs"]]
-        ctx.observe(f"--skip-missing-contigs drops the alignments of contigs missing from the VCF (by design; outside the quantifier)")
-        chrom_of = [c for c in case["contigs"]]
-    elif regions is None:
-        expected = inrecs
+    if regions is None:
+        exp_idx = list(range(len(inrecs)))
         chrom_of = [c for c in case["contigs"]]
     else:
-        expected = [r for r in inrecs if r["chrom"] in regions and any(overlaps(r, reg) for reg in regions[r["chrom"]])]
+        exp_idx = [k for k, r in enumerate(inrecs) if r["chrom"] in regions and any(overlaps(r, reg) for reg in regions[r["chrom"]])]
         chrom_of = list(regions)
+    write_missing = True
+    if o.get("skip_missing_contigs"):
+        # the property: every input alignment is in the output.  As the code is, the alignments of a contig that the VCF
+        # does not know are left out (finding F70; fixes/F70.patch writes them without HP/PC/PS)
+        kept = [k for k in exp_idx if inrecs[k]["chrom"] is None or inrecs[k]["chrom"] in case["vcf_contigs"]]
+        if len(kept) != len(exp_idx) and compare_streams([inrecs[k] for k in kept], outrecs) is None:
+            lost = [inrecs[k] for k in exp_idx if k not in set(kept)]
+            ctx.fail(f"--skip-missing-contigs: {len(lost)} input alignment(s) on contig(s) {sorted({r['chrom'] for r in lost})} (unknown to the VCF) are missing "
+                     f"from the output BAM, e.g. {lost[0]['name']} at {lost[0]['chrom']}:{lost[0]['start']}; {len(outrecs)} of {len(exp_idx)} alignments written",
+                     slim, key="skip-missing-contigs-drops")
+            exp_idx = kept
+            write_missing = False
+    expected = [inrecs[k] for k in exp_idx]
     ctx.dist("n_expected", len(expected) // 20 * 20)
 
     # ---- conservation
@@ -354,21 +641,34 @@ def run_case(ctx, case, d):
         impl_norm = [[[s, e] for s, e in real[c]] for c in contigs if c in real]
         if impl_norm != ans["norm"]:
             ctx.disagree("c10.regions/normalize_user_regions", slim, impl_norm, ans["norm"])
-        exp_idx = [k for k, r in enumerate(inrecs) if r["chrom"] in regions and any(overlaps(r, reg) for reg in regions[r["chrom"]])]
         for name in ("written", "once"):
             mod_idx = [per[i][k] for i, k in ans[name]]
+            if not write_missing:
+                mod_idx = [k for k in mod_idx if inrecs[k]["chrom"] in case["vcf_contigs"]]
             if mod_idx != exp_idx:       # expected == outrecs was established above
                 ctx.disagree("c10.regions/" + name, slim, exp_idx, mod_idx)
+    # ---- the haplotag list as written
+    lines = [l.rstrip("\n").split("\t") for l in open(lst)][1:]
+    used = samples_in_use(case)
+    det_cache = {}
+    coll_names, coll_bx = find_collisions(case, inrecs)
+    ctx.dist("names_in_two_samples", min(len(coll_names), 3)); ctx.dist("barcodes_in_two_samples", min(len(coll_bx), 3))
+    model_run_check(ctx, case, files, inrecs, outrecs, exp_idx, lines, regions, used, write_missing, det_cache)
     # unplaced tail untouched (also the three tags)
     for e, r in zip(expected, outrecs):
         if e["chrom"] is None and e["three"] != r["three"]:
             ctx.fail(f"unplaced unmapped read {e['name']} was modified", slim, key="conservation")
 
     # ---- decisions
-    used = samples_in_use(case)
     nontrivial = {"tagged": 0, "untagged_eligible": 0, "multi": 0}
     final = {}
-    for swapped in (False, True):
+    order_dependent = bool(o.get("ignore_read_groups")) and len(used) > 1
+    if order_dependent:
+        ctx.observe("--ignore-read-groups with several --sample: every sample works on all reads, the result depends on the order of a "
+                    "Python set of sample names; only conservation, the list and the whole-run model (any order) are checked")
+        nontrivial["tagged"] = sum(1 for r in outrecs if r["tagvals"][0] is not None)
+        nontrivial["untagged_eligible"] = 1
+    for swapped in (() if order_dependent else (False, True)):
         if swapped:
             if "swap" not in case:
                 break
@@ -404,7 +704,7 @@ def run_case(ctx, case, d):
                     idxs = sample_variants(case, s, chrom, regs)
                     info = phase_info(case, s, chrom, idxs, swap)
                     if mode == "detected":
-                        reads = detected_reads(case, files, s, chrom, idxs, regs) if not swapped else final[("reads", "detected", chrom, s)]
+                        reads = detected_reads(case, files, s, chrom, idxs, regs, cache=det_cache) if not swapped else final[("reads", "detected", chrom, s)]
                         final[("reads", "detected", chrom, s)] = reads
                     else:
                         order, groups, bx = truth_groups(case, inrecs, truth_of, s, chrom, idxs, regs, per_region=(mode == "truth_per_region"))
@@ -436,6 +736,8 @@ def run_case(ctx, case, d):
             for k in idx_exp:
                 rec = cur[k]
                 hp, pc, ps = rec["tagvals"]
+                if rec["name"] in coll_names or (rec["bx"] is not None and rec["bx"] in coll_bx):
+                    continue                # shared between samples: judged by the whole-run model (finding F71)
                 eligible = not (rec["flag"] & 4 or rec["flag"] & 256 or ((rec["flag"] & 2048) and not o.get("tag_supplementary")))
                 if hp is None:
                     if ps is not None or pc is not None:
@@ -484,6 +786,8 @@ def run_case(ctx, case, d):
                     impl = list(rec["tagvals"])
                     if impl == mt:
                         continue
+                    if rec["name"] in coll_names or (rec["bx"] is not None and rec["bx"] in coll_bx):
+                        continue
                     if tuple(impl) in adm_by_name.get(rec["name"], ()) or (
                             linked_on and rec["name"] not in adm_by_name and tuple(impl) in adm_by_bx.get(rec["bx"], ())):
                         ctx.observe("read cloud with tied phase sets: the reported set depends on Python set order; implementation's "
@@ -506,7 +810,7 @@ def run_case(ctx, case, d):
         final[("amb", swapped)] = ambiguous_names
 
     # ---- symmetry
-    if "swap" in case:
+    if "swap" in case and not order_dependent:
         sw = case["swap"]
         amb = final.get(("amb", False), set()) | final.get(("amb", True), set())
         ids = rg_ids(case, sw["sample"])
@@ -517,6 +821,8 @@ def run_case(ctx, case, d):
         for e, r1, r2 in zip(expected, outrecs, outrecs2):
             if e["name"] in amb or (e["bx"] is not None and e["bx"] in amb_bx):
                 ctx.observe("read cloud with tied phase sets: result depends on Python set order (skipped in the symmetry check)")
+                continue
+            if e["name"] in coll_names or (e["bx"] is not None and e["bx"] in coll_bx):
                 continue
             hp, pc, ps = r1["tagvals"]
             in_set = (hp is not None and ps == sw["ps"] and e["chrom"] == sw["chrom"] and sw["sample"] in used
@@ -530,7 +836,6 @@ def run_case(ctx, case, d):
         ctx.dist("swap_moved_reads", min(moved, 10))
 
     # ---- haplotag list
-    lines = [l.rstrip("\n").split("\t") for l in open(lst)][1:]
     prim = [r for r in outrecs if r["chrom"] is not None and not (r["flag"] & 256 or r["flag"] & 2048)]
     exp_lines = [[r["name"], ("none" if r["tagvals"][0] is None else f"H{r['tagvals'][0]}"), ("none" if r["tagvals"][2] is None else str(r["tagvals"][2])), r["chrom"]]
                  for r in prim]
